@@ -431,10 +431,36 @@ def r3_callsites(ctx):
             bad = [w for w in seen[k] if w]
             if bad:
                 ctx.bad("R03.3", "%s:%s" % (short_name, k), "slot-arguments:" + short("; ".join(bad), 80), wloc, "; ".join(bad))
+        # the summed gradients reach the optimizer as they were handed in: nothing else in update() modifies them (before or after the walk)
+        gnames = set().union(*roles.values()) if roles else set()
+        touched = []
+        for e in P.eff:
+            if e[0] == "loop" and e[1] == lid:
+                continue
+            txt = e6.find_terms(tuple(e[1:]) if e[0] != "loop" else e[3], lambda t: t[0] in ("set", "mut", "push", "mutcall"))
+            if e[0] in ("set", "mut", "push", "mutcall"):
+                txt = [e] + txt
+            if e[0] == "loop":
+                # a loop over (a view of) the gradient lists that changes anything: elements reached through `iter_mut()` are the lists' own cells
+                srcs = {x_[1] for x_ in e6.find_terms(e[2], lambda y: y[0] in ("p", "loopin", "loopout", "free") and len(y) >= 2 and isinstance(y[1], str))}
+                if (srcs & gnames) and any(f[0] in ("set", "mut", "push", "mutcall") for x_ in e[3] for f in x_[1]):
+                    touched.append("elements of " + ",".join(sorted(srcs & gnames)))
+            for t in txt:
+                place = t[1] if t[0] in ("set", "push") else (t[2] if t[0] == "mut" else None)
+                if place is not None and (e6.root_name(place) in gnames or any(e6.contains(place, ("local", g_)) for g_ in gnames)):
+                    touched.append(e6.show(place, 2)[:40])
+        entry_ok = True
+        for g_ in gnames:
+            ev = e6.entry_value(L["paths"][0], ("loopin", g_, lid)) if L["paths"] else None
+            if isinstance(ev, tuple) and ev and ev[0] in ("loopout", "upd"):
+                entry_ok = False
+        ctx.check("R03.3", short_name + ":gradients-unmodified", not touched and entry_ok, "gradients-modified-before-step:" + short(",".join(touched), 60), wloc,
+                  "the gradient lists are only read by the optimizer calls", "%s changes the summed gradients (%s) outside the optimizer calls: the step is no longer taken on the sum of the "
+                  "per-sample gradients" % (fpath, ", ".join(touched) or "before the walk"))
         okroles = len(roles.get("W", ())) == 1 and len(roles.get("B", ())) == 1 and roles["W"] != roles["B"]
         ctx.check("R03.3", short_name + ":gradient-lists", okroles, "gradient-lists:%s" % sorted((k, sorted(v)) for k, v in roles.items()), wloc,
                   "weights take their gradient from one list, biases from the other")
-    ctx.floor("R03.3", 8 + 2 + 9 + 2, "8 state slots, 2 walks, 9 layer cases, 2 gradient-list facts")
+    ctx.floor("R03.3", 8 + 2 + 9 + 2 + 2, "8 state slots, 2 walks, 9 layer cases, 2 gradient-list facts, 2 unmodified-gradient facts")
 
 
 def r4(ctx):
